@@ -60,7 +60,7 @@ func runC07(c *Ctx) {
 }
 
 type lruCtx struct {
-	c                                                       *Ctx
+	c                                                    *Ctx
 	entries, list, curSize, maxSize, itKey, itSize, itBM *types.Var
 }
 
@@ -217,7 +217,7 @@ func (L *lruCtx) keymatch() {
 	}
 	// eviction: delete(entries, removedItem.key)
 	nDel := 0
-	for _, fn := range []*ssa.Function{put, get} {
+	for _, fn := range append(c.scope(put, 2), c.scope(get, 2)...) {
 		allInstrs(fn, func(i ssa.Instruction) {
 			call, ok := i.(*ssa.Call)
 			if !ok {
@@ -296,7 +296,10 @@ func (L *lruCtx) touch() {
 	} else {
 		c.r.bad(rule, safeFname(put)+": insert position", "new entries are not added to the recency list", []string{c.w.pos(put.Pos())})
 	}
-	rms := listCalls(put, "Remove")
+	var rms []*ssa.Call
+	for _, f := range c.scope(put, 2) {
+		rms = append(rms, listCalls(f, "Remove")...)
+	}
 	if len(rms) == 0 {
 		c.r.bad(rule, safeFname(put)+": eviction end", "nothing is ever removed from the recency list", []string{c.w.pos(put.Pos())})
 	}
@@ -422,7 +425,7 @@ func (L *lruCtx) account() {
 		desc  string
 	}
 	var upds []upd
-	for _, fn := range []*ssa.Function{put, c.a.LRUGet} {
+	for _, fn := range append(c.scope(put, 2), c.scope(c.a.LRUGet, 2)...) {
 		allInstrs(fn, func(i ssa.Instruction) {
 			st, ok := i.(*ssa.Store)
 			if !ok {
@@ -586,7 +589,7 @@ func (L *lruCtx) account() {
 	})
 	// eviction loop
 	var cmpI *ssa.BinOp
-	allInstrs(put, func(i ssa.Instruction) {
+	instrsOf(c.scope(put, 2), func(i ssa.Instruction) {
 		b, ok := i.(*ssa.BinOp)
 		if !ok {
 			return
@@ -599,7 +602,8 @@ func (L *lruCtx) account() {
 		c.r.bad(rule, safeFname(put)+": eviction loop", "Put never compares the byte counter with the capacity (counter > capacity)", []string{c.w.pos(put.Pos())})
 		return
 	}
-	rms := listCalls(put, "Remove")
+	loopFn := cmpI.Parent() // the function holding the eviction loop (Put itself or a helper it calls)
+	rms := listCalls(loopFn, "Remove")
 	isRemove := func(i ssa.Instruction) bool {
 		for _, r := range rms {
 			if ssa.Instruction(r) == i {
@@ -610,7 +614,7 @@ func (L *lruCtx) account() {
 	}
 	okLoop := len(rms) > 0
 	for _, rm := range rms {
-		if !c.fc.reachableFrom(put, rm, cmpI) {
+		if !c.fc.reachableFrom(loopFn, rm, cmpI) {
 			okLoop = false
 		}
 	}
@@ -638,7 +642,7 @@ func (L *lruCtx) account() {
 		return false
 	}
 	if okLoop {
-		if p := c.fc.pathFrom(put, cmpI, func(i ssa.Instruction) bool { _, ok := i.(*ssa.Return); return ok }, isRemove, exitEdge); p != nil {
+		if p := c.fc.pathFrom(loopFn, cmpI, func(i ssa.Instruction) bool { _, ok := i.(*ssa.Return); return ok }, isRemove, exitEdge); p != nil {
 			okLoop = false
 		}
 	}
@@ -655,7 +659,7 @@ func (L *lruCtx) account() {
 		if !inc || u.st.Parent() != put {
 			continue
 		}
-		if p := c.fc.pathAvoiding(put, u.st, func(i ssa.Instruction) bool { _, ok := i.(*ssa.Return); return ok }, func(i ssa.Instruction) bool { return i == ssa.Instruction(cmpI) }); p != nil {
+		if p := c.fc.pathAvoiding(put, u.st, func(i ssa.Instruction) bool { _, ok := i.(*ssa.Return); return ok }, c.fc.ipAvoid(func(i ssa.Instruction) bool { return i == ssa.Instruction(cmpI) })); p != nil {
 			c.r.bad(rule, fmt.Sprintf("%s: increase#%d reaches eviction", safeFname(put), k+1), "after increasing the byte counter Put can return without running the eviction loop: the cache stays over its bound", []string{c.w.ipos(u.st)}, c.fc.witnessStrings(p)...)
 		} else {
 			c.r.ok(rule, fmt.Sprintf("%s: increase#%d reaches eviction", safeFname(put), k+1), "followed by the eviction loop on every path", c.w.ipos(u.st))
